@@ -228,7 +228,7 @@ private: // program parameters
 
     std::string _configfile;
 
-    uint_fast8_t _glversion;
+    uint32_t _glversion;
 
     bool _verbose;
 
